@@ -4,16 +4,16 @@ _NOTE = ("theorems are about the hand-written Gallina model of the scheduler cor
          "correspondence run of the core engine (real ClusterContext driven through generated SI histories, observations after every step); "
          "the oracle evaluated on implementation observations is the same Gallina predicate the theorems state (coq/Core/Ledger.v)")
 PROPS = {
-    "C01": dict(engines=["core"], props_file="Props/C01.v", extra_props=["Props/C01b.v"], checkers=["Oracles/CoreC01.v", "Oracles/CoreModelCheck.v"], checker_fns={"core": "Oracles.CoreC01:c01_check_all"},
-                variants=["", "gangdeep", "reserve", "swap", "gang", "gangdeep"], coq_scan=["Core", "Oracles/CoreC01.v", "Props/C01.v", "Props/C01b.v", "Base"], level="proof",
+    "C01": dict(engines=["core"], props_file="Props/C01.v", extra_props=["Props/C01b.v"], checkers=["Oracles/CoreC01.v", "Oracles/CoreModelCheck.v", "Oracles/CoreC123All.v"], checker_fns={"core": "Oracles.CoreC123All:c01_all_check"},
+                variants=["", "gangdeep", "reserve", "swap", "preemptdeep", "gang"], coq_scan=["Core", "Oracles/CoreC01.v", "Props/C01.v", "Props/C01b.v", "Base"], level="proof",
                 assumptions=["single partition, single RM", "quantities stay within int64 (generators far below)"],
                 manifest=dict(category="proof", text="Coq: node ledger invariant (allocated = sum of bound allocations, available = capacity - allocated - occupied) for every sequence of node operations of the model and bind-safety of every admitted scheduling decision; the same predicates run as oracles on every observed state/decision of the real scheduler", note=_NOTE)),
-    "C02": dict(engines=["core", "reload"], props_file="Props/C02.v", checkers=["Oracles/CoreC01.v", "Oracles/CoreModelCheck.v", "Oracles/CoreC02Conf.v"], checker_fns={"core": "Oracles.CoreC01:c02_check_all", "reload": "Oracles.CoreC02Conf:c02conf_check_all"},
+    "C02": dict(engines=["core", "reload"], props_file="Props/C02.v", checkers=["Oracles/CoreC01.v", "Oracles/CoreModelCheck.v", "Oracles/CoreC02Conf.v", "Oracles/CoreC123All.v"], checker_fns={"core": "Oracles.CoreC123All:c02_all_check", "reload": "Oracles.CoreC02Conf:c02conf_check_all"},
                 variants=["", "gangdeep", "gang", "reload", "swap", ""], coq_scan=["Core", "Oracles/CoreC01.v", "Oracles/CoreC02Conf.v", "Props/C02.v", "Base"], level="proof",
                 assumptions=["single partition, single RM"],
                 manifest=dict(category="proof", text="Coq: headroom / TryIncAllocatedResource soundness (an admitted increment keeps every ancestor within the types its maximum defines) for all queue trees and sparse vectors; oracle on every observed scheduling decision and forced-change classification", note=_NOTE)),
-    "C03": dict(engines=["core"], props_file="Props/C03.v", extra_props=["Props/C03b.v"], checkers=["Oracles/CoreC01.v", "Oracles/CoreModelCheck.v"], checker_fns={"core": "Oracles.CoreC01:c03_check_all"},
-                variants=["", "gangdeep", "swap", "gang", "reserve", "gangdeep"], coq_scan=["Core", "Oracles/CoreC01.v", "Props/C03.v", "Props/C03b.v", "Base"], level="proof",
+    "C03": dict(engines=["core"], props_file="Props/C03.v", extra_props=["Props/C03b.v"], checkers=["Oracles/CoreC01.v", "Oracles/CoreModelCheck.v", "Oracles/CoreC123All.v"], checker_fns={"core": "Oracles.CoreC123All:c03_all_check"},
+                variants=["", "gangdeep", "swap", "preemptdeep", "reserve", "gang"], coq_scan=["Core", "Oracles/CoreC01.v", "Props/C03.v", "Props/C03b.v", "Base"], level="proof",
                 assumptions=["single partition, single RM"],
                 manifest=dict(category="proof", text="Coq: books-agree invariant of the model (application, queue, node, root ledgers are sums over live allocations and asks; membership both ways) over all operation sequences; oracle on every observed state", note=_NOTE)),
 }
